@@ -65,7 +65,6 @@ type c07case struct {
 }
 
 func c07eval(r *vx.R, c c07case, fast cipher.AEAD) {
-	r.Eval(1)
 	key := keyByName(c.Key)
 	nonce, ct, aad := vx.UnHex(c.Nonce), vx.UnHex(c.CT), vx.UnHex(c.AAD)
 	if fast == nil {
@@ -76,6 +75,7 @@ func c07eval(r *vx.R, c c07case, fast cipher.AEAD) {
 		r.Add("unsupported_on_this_path", 1)
 		return
 	}
+	r.Eval(1)
 	wantPt, wantOK := refOpen(fast, key, nonce, ct, aad, c.Tag)
 	var dst []byte
 	if c.DstSpare {
